@@ -31,7 +31,7 @@ from sqfs_forge import Node, forge, has_xattr_table
 LEVEL = "proof"
 MODULE = "Sqfs.Props.C06"
 REQUIRED = ["Sqfs.C06.confinement", "Sqfs.C06.confinement_raw", "Sqfs.C06.plan_paths_clean", "Sqfs.C06.plan_prefix_dirs",
-            "Sqfs.C06.resolve_stays_under_R", "Sqfs.C06.treeSort_names_distinct", "Sqfs.C06.below_R_only_tree_nodes",
+            "Sqfs.C06.resolve_stays_under_R", "Sqfs.C06.treeSort_names_distinct", "Sqfs.C06.nul_cut_names_are_duplicates", "Sqfs.C06.below_R_only_tree_nodes",
             "Sqfs.C06.skipped_reported_rest_unpacked", "Sqfs.C06.get_path_then_canonicalize_never_fails",
             "Sqfs.C06.confinement_under_faults", "Sqfs.C06.main_confinement", "Sqfs.C06.root_not_established_nothing_unpacked",
             "Sqfs.C06.failed_chdir_writes_nothing", "Sqfs.C06.failing_step_ends_run", "Sqfs.C06.failing_mkdir_p_ends_run",
